@@ -98,6 +98,12 @@ Clauses(o) ==
       THEN IF Converged(post) THEN {} ELSE {"converged"}
       ELSE {})
   \cup
+     \* ---- C01 over histories: after a successful run with the default flags every certificate gopki itself produced (hash line)
+     \*      verifies under, and names, the CURRENT certificate of its configured issuer - also the ones this run did not write
+     (IF IsRun(o) /\ o.obs.result = "ok" /\ o.act.outcome = "ok" /\ fl = DefaultFlags /\ TypeOK(post)
+      THEN IF \A e \in post.present : (post.art[e].cert /\ post.art[e].hash # NoHash) => ChainOK(post, e) THEN {} ELSE {"chainAfterDefault"}
+      ELSE {})
+  \cup
      \* ---- C15: a default run without injected fault completes (CSR-only roots are outside the model)
      (IF IsRun(o) /\ fl = DefaultFlags /\ o.act.outcome \in {"ok", "signfail"} /\ TypeOK(pre) /\ ~Refusing(pre, fl)
       THEN IF o.obs.result = "ok" THEN {} ELSE {"defaultRunFails"}
